@@ -497,7 +497,14 @@ static int source_fd(const char* s, char* desc, size_t cap) {
   else if (s[0] == 'n') {
     if (s[1] == 's') fd = user_fd(__real_socket(AF_INET, SOCK_STREAM | SOCK_CLOEXEC, 0));
     else if (s[1] == 'u') fd = user_fd(__real_socket(AF_INET, SOCK_DGRAM | SOCK_CLOEXEC, 0));
+    else if (s[1] == 'x') fd = user_fd(__real_socket(AF_UNIX, SOCK_STREAM | SOCK_CLOEXEC, 0));
     else { int p[2]; if (__real_pipe2(p, O_CLOEXEC) == 0) { close(p[1]); fd = user_fd(p[0]); } }
+    snprintf(desc, cap, "f%d", fd);
+  }
+  else if (s[0] == 'w') {      /* the descriptor another handle of this loop already watches */
+    int k = atoi(s + 1);
+    if (k >= 0 && k < NH && hs[k] != NULL && strchr("tpu", hkind[k]))
+      fd = hkind[k] == 'u' ? ((uv_udp_t*) hs[k])->io_watcher.fd : ((uv_stream_t*) hs[k])->io_watcher.fd;
     snprintf(desc, cap, "f%d", fd);
   }
   return fd;
@@ -607,7 +614,7 @@ static void run_token(const char* t) {
       g_user_close = -1; given[h] = -1;
     } else if (t[1] == 'u') {
       if (given[h] < 0) { OUT("{ }-=skip "); return; }
-      OUT("{ c%d ", given[h]); close(given[h]); tab[given[h]] = ST_NONE; OUT("}uc:%d=0 ", h); given[h] = -1;
+      OUT(close(given[h]) == 0 ? "{ c%d " : "{ cbad%d ", given[h]); tab[given[h]] = ST_NONE; OUT("}uc:%d=0 ", h); given[h] = -1;
     } else if (t[0] == 'g' && t[1] == 'w') {       /* gw<g>:<n>  the caller sends n descriptors in one message */
       struct msghdr msg; struct iovec iov; char c = 'x';
       union { char buf[CMSG_SPACE(64 * sizeof(int))]; struct cmsghdr align; } u;
@@ -818,9 +825,19 @@ static void run_token(const char* t) {
     }
     if (t[1] == 'o') {
       int fd = source_fd(arg, desc, sizeof desc);
+      if (fd < 0) { OUT("{ }-=skip "); return; }
+      /* the descriptor belongs to the handle only if the call returns 0; otherwise it stays the caller's */
       BEGIN(); rc = uv_tcp_open((uv_tcp_t*) hs[h], fd); END("op:%d:%s:%d=%d", midx[h], desc, rc == 0, rc);
       if (rc == 0 && arg[0] == 'g') given[atoi(arg + 1)] = -1;
-      if (rc == 0 && fd >= 0 && fd < MAXFD) tab[fd] = ST_LIBUV;
+      if (rc == 0 && fd > 2 && fd < MAXFD) tab[fd] = ST_LIBUV;
+      return;
+    }
+    if (t[1] == 'n') {          /* remembered until the handle gets a socket */
+      BEGIN(); rc = uv_tcp_nodelay((uv_tcp_t*) hs[h], 1); END("-=%d", rc);
+      return;
+    }
+    if (t[1] == 'k') {
+      BEGIN(); rc = uv_tcp_keepalive((uv_tcp_t*) hs[h], 1, 60); END("-=%d", rc);
       return;
     }
     break;
@@ -852,6 +869,7 @@ static void run_token(const char* t) {
     }
     if (t[1] == 'o') {
       int fd = source_fd(arg, desc, sizeof desc);
+      if (fd < 0) { OUT("{ }-=skip "); return; }
       BEGIN(); rc = uv_pipe_open((uv_pipe_t*) hs[h], fd); END("op:%d:%s:%d=%d", midx[h], desc, rc == 0, rc);
       if (rc == 0 && arg[0] == 'g') given[atoi(arg + 1)] = -1;
       if (rc == 0 && fd > 2 && fd < MAXFD) tab[fd] = ST_LIBUV;
@@ -880,6 +898,7 @@ static void run_token(const char* t) {
     }
     if (t[1] == 'o') {
       int fd = source_fd(arg, desc, sizeof desc);
+      if (fd < 0) { OUT("{ }-=skip "); return; }
       BEGIN(); rc = uv_udp_open((uv_udp_t*) hs[h], fd); END("op:%d:%s:%d=%d", midx[h], desc, rc == 0, rc);
       if (rc == 0 && arg[0] == 'g') given[atoi(arg + 1)] = -1;
       if (rc == 0 && fd > 2 && fd < MAXFD) tab[fd] = ST_LIBUV;    /* 0-2 stay the caller's */
